@@ -9,6 +9,7 @@ import (
 	"fmt"
 	"os"
 	"sort"
+	"syscall"
 )
 
 type subcmd func(args []string) int
@@ -38,6 +39,10 @@ func main() {
 // eachLine decodes each stdin line into a fresh value produced by mk and calls f.
 func eachLine(f func(line []byte) error) int {
 	in := bufio.NewReaderSize(os.Stdin, 1<<20)
+	// Lua code under test must never consume the driver's own input: from now on os.Stdin is /dev/null
+	if devnull, err := os.Open(os.DevNull); err == nil {
+		os.Stdin = devnull
+	}
 	for {
 		line, err := in.ReadBytes('\n')
 		if len(line) > 1 {
@@ -54,7 +59,18 @@ func eachLine(f func(line []byte) error) int {
 	return 0
 }
 
-var out = bufio.NewWriterSize(os.Stdout, 1<<20)
+// The driver's own output goes to a private duplicate of fd 1; os.Stdout (which Lua code under test can
+// write to and even close through the io library) is redirected to /dev/null.
+var out = func() *bufio.Writer {
+	w := os.Stdout
+	if fd, err := syscall.Dup(1); err == nil {
+		w = os.NewFile(uintptr(fd), "driver-out")
+		if devnull, err := os.OpenFile(os.DevNull, os.O_WRONLY, 0); err == nil {
+			os.Stdout = devnull
+		}
+	}
+	return bufio.NewWriterSize(w, 1<<20)
+}()
 
 func emit(v interface{}) {
 	b, err := json.Marshal(v)
